@@ -1,5 +1,34 @@
 package main
 
-func selfcheck(name string) int { return 0 }
+import (
+	"fmt"
+	"os"
+)
+
+// selfcheck runs the framework's own sanity checks (bound of refz80 to
+// silicon, ...). A failing self-check makes bin/setup fail: the checks then
+// refuse to run rather than report violations.
+func selfcheck(name string) int {
+	verif := os.Getenv("VERIF")
+	if verif == "" {
+		verif = "/verif"
+	}
+	rc := 0
+	if name == "" || name == "refcrc" {
+		ok, rep := selfcheckRefCRC(verif)
+		fmt.Println("selfcheck refcrc:", rep)
+		if !ok {
+			rc = 1
+		}
+	}
+	if name == "" || name == "refimage" || name == "refimage-full" {
+		ok, rep := selfcheckRefImages(verif, name == "refimage-full")
+		fmt.Println("selfcheck refimage:", rep)
+		if !ok {
+			rc = 1
+		}
+	}
+	return rc
+}
 
 func rewriteMain(src, out string) int { return 0 }
